@@ -83,7 +83,7 @@ def cases(ctx):
     if S == 0:
         ctx.exhaustive.append("five comparison operators x N in {0,1,20,75,76,255,256} x push lengths N-1,N,N+1 x {minimal, non-minimal push form}")
     # typed tokens
-    for i in range(160 if t else 10):
+    for i in range(800 if t else 10):
         valid = r.random() < 0.5
         for kind, tokname, data in (("sig_token", "OP_SIG", rnd_sig(r, valid)), ("pubkey_token", "OP_PUBKEY", rnd_pub(r, valid)), ("pkh_token", "OP_PUBKEYHASH", gen.rbytes(r, 20 if valid else r.choice([19, 21, 1, 32])))):
             if not 1 <= len(data) <= 75:
@@ -95,7 +95,7 @@ def cases(ctx):
             sc = wire.detok([("push", sig), ("push", pub), ("op", 0x76), ("op", 0xA9), ("push", pkh), ("op", 0x88), ("op", 0xAC), ("op", 0x6A), gen.push_tok(r, r.choice([1, 80, 300]), True)])
             yield {"k": "pair", "script": sc.hex(), "tmpl": "OP_SIG OP_PUBKEY OP_DUP OP_HASH160 OP_PUBKEYHASH OP_EQUALVERIFY OP_CHECKSIG OP_RETURN OP_DATA", "tag": "extract_order"}
     # random scripts vs exact / near-miss templates
-    for i in range(600 if t else 40):
+    for i in range(3000 if t else 40):
         toks = gen.gen_tokens(r, r.choice([1, 2, 3, 5, 8]), depth=0, minimal=r.random() < 0.7, opcodes=OPC, push_lens=[1, 2, 3, 20, 33, 75, 76, 255, 256], p_if=0)
         toks = [t_ for t_ in toks if not (t_[0] == "pd" and not t_[2])]
         if not toks:
@@ -135,7 +135,7 @@ def cases(ctx):
     if S == 0:
         ctx.exhaustive.append("self-template of every script of <=2 tokens over a %d-token alphabet%s" % (len(A), "" if t else " (every 4th pair in quick)"))
     # criteria
-    for i in range(500 if t else 40):
+    for i in range(2500 if t else 40):
         ni, no = r.randrange(0, 7), r.randrange(0, 7)
         pk = gen.rbytes(r, 20)
         p2pkh = b"\x76\xa9\x14" + pk + b"\x88\xac"
